@@ -158,6 +158,25 @@ pub fn c05_ops() -> Vec<Op> {
             v.push(verdict(format!("lexical parse_term returns[{}] {n}: {s2:?}", f.name), move || c05::case_parse(&f, "parse_term", &s2)));
         }
     }
+    // lexical parsing through a format instance of the caller's own, created and dropped inside the op: short
+    // and long inputs of every format
+    for f in fmts::all() {
+        let name = f.name;
+        for (n, text) in c08::history_inputs(&f).into_iter().filter(|(n, _)| ["term", "atom", "task", "unterminated-compound", "image"].contains(&n.as_str())) {
+            for short in [false, true] {
+                let t: String = if short { text.chars().take(5).collect() } else { text.clone() };
+                v.push(verdict(format!("lexical parse on an owned format returns[{name}] {n}: {t:?}"), move || {
+                    use narsese::conversion::string::impl_lexical::format_instances as fi;
+                    let own = match name {
+                        "ascii" => fi::create_format_ascii(),
+                        "latex" => fi::create_format_latex(),
+                        _ => fi::create_format_han(),
+                    };
+                    crate::report::quiet_catch(std::panic::AssertUnwindSafe(|| (own.parse(&t).is_ok(), own.parse_term(&t).is_ok()))).map_err(|p| format!("lexical parse on an owned {name} format panics on {t:?}: {p}"))
+                }));
+            }
+        }
+    }
     // a dozen hand-built hostile values (the hostile universe is the main sweep's business and far too
     // large to rebuild in every baseline process)
     let hv: Vec<LN> = {
@@ -440,8 +459,56 @@ pub fn c16_ops() -> Vec<Op> {
     with_context(v)
 }
 
+/// push `pushed` into a term built from `target` (on another thread if `elsewhere`): the result must hold
+/// exactly the union
+fn push_case(target: &R, pushed: &[R], elsewhere: bool) -> Result<(), String> {
+    let t2 = target.clone();
+    let mut t = if elsewhere { std::thread::spawn(move || t2.build()).join().map_err(|_| "builder thread died".to_string())? } else { target.build() };
+    let items: Vec<narsese::enum_narsese::Term> = pushed.iter().map(|r| r.build()).collect();
+    let mut all = target.kids.clone();
+    all.extend(pushed.iter().cloned());
+    let want = R::node(target.tag, all).canon();
+    t.push_components(items).map_err(|e| format!("push into {} fails: {e}", target.show()))?;
+    let got = R::of_term(&t);
+    if got.canon() != want {
+        return Err(format!("push gives {} instead of {}", got.canon().show(), want.show()));
+    }
+    if got.kids.len() != want.kids.len() {
+        return Err(format!("after the push the term holds {} components, the united value has {}", got.kids.len(), want.kids.len()));
+    }
+    Ok(())
+}
+
 pub fn c17_ops() -> Vec<Op> {
     let mut v = vec![];
+    // pushes of look-alikes (terms the hash cannot tell apart from a held component) and of components the target
+    // already holds, into a target built here or on another thread
+    {
+        let (a, b) = (R::word("a"), R::word("b"));
+        let held = [
+            R::node(Tag::Product, vec![a.clone(), b.clone()]),
+            R::node(Tag::SetExt, vec![a.clone(), b.clone()]),
+            R::pair(Tag::Sim, a.clone(), b.clone()),
+            a.clone(),
+        ];
+        let twins = [
+            R::node(Tag::SeqConj, vec![a.clone(), b.clone()]),
+            R::node(Tag::SetExt, vec![b.clone(), a.clone()]),
+            R::pair(Tag::Sim, b.clone(), a.clone()),
+            R::atom(Tag::IVar, "a"),
+        ];
+        for tag in [Tag::SetExt, Tag::Conj, Tag::ParConj] {
+            for (h, tw) in held.iter().zip(twins.iter()) {
+                for elsewhere in [false, true] {
+                    let target = R::node(tag, vec![h.clone(), R::word("c")]);
+                    let (t1, p1) = (target.clone(), vec![tw.clone()]);
+                    v.push(verdict(format!("push {} into {}{}", tw.show(), target.show(), if elsewhere { " built on another thread" } else { "" }), move || push_case(&t1, &p1, elsewhere)));
+                    let (t2, p2) = (target.clone(), vec![h.clone()]);
+                    v.push(verdict(format!("push the held {} into {}{}", h.show(), target.show(), if elsewhere { " built on another thread" } else { "" }), move || push_case(&t2, &p2, elsewhere)));
+                }
+            }
+        }
+    }
     let inits = c17::inits();
     let acts: Vec<c17::Act> = (0..c17::NAMES.len() as u8).step_by(6).map(c17::Act::SetName).chain((0..c17::push_lists().len() as u8).step_by(3).map(c17::Act::Push)).collect();
     for (i, init) in inits.iter().enumerate().step_by(6) {
